@@ -59,9 +59,12 @@ class ConcBase(Property):
 class C05(ConcBase):
     id = "C05"
     design_ref = "DESIGN.md section 5 / C05"
-    theorems_note = ("on the concurrent machine (any number of threads, any programs, any schedule): slot_write_once (an initialised slot "
-                     "keeps its element until teardown), one_element_per_position (every completed lookup of a position returns the same "
-                     "element), loser_neutral (losing a creation race leaves reference count, allocations and slots as before)")
+    theorems_note = ("on the concurrent machine, for every number of threads, all programs and every schedule (Reach): "
+                     "one_element_per_position (all handles any threads hold or were given for one position are the same element), "
+                     "handles_denote_slots, slot_write_once (an initialised slot keeps its element until the teardown; a loser installs "
+                     "nothing), block_identity (one NodeData block stands for one position; no child shares the root's block), "
+                     "slot_kinds_correct (a slot holds a node exactly where the green tree has a node child; its parent position is the "
+                     "root or an initialised node slot)")
     assumptions = [
         "the machine is at the granularity of the hook points (lock requests, read-modify-writes); between two hook points a thread's "
         "code touches only thread-private state or state protected by the lock it holds — the schedule correspondence replays every "
